@@ -358,7 +358,7 @@ theorem simulated_keys_sufficient :
 
 /-- PARTIAL (same post-fee dependence: the simulation must be taken on the state *after* the fee
 deduction, `s'`, not on the state the API sees): a transaction that declares them reproduces the simulated outputs on the
-post-fee state (combine with `execute_outputs_eq_onchain` for the same state). -/
+post-fee state (combine with `execute_outputs_eq_onchain_partial` for the same state). -/
 theorem simulated_keys_sufficient_onchain_partial (deduct : State → Option State) (sponsor : Scope)
     (s s' : State) (progs : List Prog) (rs : List (Out × Scope)) (acts : List Action)
     (hfee : deduct s = some s') (hsim : simulateActions s' progs = some rs)
